@@ -51,6 +51,7 @@ fn main() {
     let args = parse_args();
     std::fs::create_dir_all(&args.out).ok();
     let rc = match args.prop.as_str() {
+        "c01" => props::c01::run(&args),
         "c04" => props::c04::run(&args),
         "c11" => props::c11::run(&args),
         "c12" => props::c12::run(&args),
